@@ -3,6 +3,7 @@
   from it.
 -/
 import Rbgp.Enc.Proofs.Negotiate
+import Rbgp.Enc.Proofs.TwoByte
 namespace Rbgp.Enc
 open Rbgp.Enc.Spec
 
@@ -45,18 +46,29 @@ theorem fitS_of_all (i : Input) (f : Fam) (v6 : Bool) (es : List Entry) (max tai
   have _ := i; have _ := f
   omega
 
+/-- towards a 2-octet-AS peer: the AS_PATH is not one of the two things RFC 6793 cannot carry (decidable form of
+    `Carriable`): a wide AS only with leading, narrow confederation segments -/
+def carriableB (a : Attr) : Bool := a.code != 2 || !hasWideSegs (asSegs a) || confedLeading (asSegs a)
+
+theorem carriableB_iff (a : Attr) : carriableB a = true ↔ Carriable a := by
+  unfold carriableB Carriable
+  by_cases h2 : a.code = 2
+  · cases hw : hasWideSegs (asSegs a) <;> simp [h2]
+  · simp [h2]
+
 def nhIsV4 : Nh → Bool
   | .v4 _ => true
   | _ => false
 
 /-- Domain of the master theorem, announcements: a buildable, encodable Reach of an IPv4/IPv6 unicast/multicast
-    family on a session with 4-octet AS numbers on both sides; the recorded defect "IPv4 next hop padded inside
+    family, on a session with 4-octet AS numbers on both sides or, towards a 2-octet-AS peer, with an AS_PATH that
+    RFC 6793 can carry (`carriableB`: the protocol limits F4e3 / F4e4 stay excluded); the recorded defect "IPv4 next hop padded inside
     MP_REACH_NLRI" (F4d) is excluded: an IPv4 next hop only in the legacy encoding or for a family whose next hop
     is written as is (IPv4 multicast). -/
 def domReach (i : Input) : Bool :=
   match i.msg with
   | .reach f (some nh) attrs es =>
-      buildable i && encodable i && as4Both i.loc i.rem && !es.isEmpty && (isIpFam f).isSome &&
+      buildable i && encodable i && (as4Both i.loc i.rem || attrs.all carriableB) && !es.isEmpty && (isIpFam f).isSome &&
       ((f == Fam.ipv4 && !extNhNegotiated i) || !nhIsV4 nh || nhAsIs f)
   | _ => false
 
@@ -79,7 +91,7 @@ theorem entryOk_ip (i : Input) (f : Fam) (v6 : Bool) (e : Entry) (hf : isIpFam f
   simp only [entryOk, hf, Bool.and_eq_true, decide_eq_true_eq, Bool.or_eq_true, beq_iff_eq] at h
   obtain ⟨⟨hp, hap⟩, hm⟩ := h
   cases hn : e.nlri with
-  | opq enc dec => simp [hn] at hm
+  | opq enc dec info => simp [hn] at hm
   | ip v6' addr mask =>
       simp only [hn, Bool.and_eq_true, beq_iff_eq, decide_eq_true_eq] at hm
       obtain ⟨⟨⟨hv, hl⟩, _⟩, hmk⟩ := hm
